@@ -2026,7 +2026,7 @@ ec_point_affine_fpx_pre_dbl_mult_precompute(size_t wnd_bits __unused,
 	if (0 != ec_point_is_at_infinity(point)) /* R←(1,1,0) */
 		return (0);
 	for (i = 1; i < curve->m; i ++) {
-		BN_RET_ON_ERR(ec_point_init(&mult_data->pt_arr[1], curve->m));
+		BN_RET_ON_ERR(ec_point_init(&mult_data->pt_arr[i], curve->m));
 		BN_RET_ON_ERR(ec_point_assign(&mult_data->pt_arr[i],
 		    &mult_data->pt_arr[(i - 1)]));
 		BN_RET_ON_ERR(ec_point_affine_add(&mult_data->pt_arr[i],
